@@ -60,12 +60,13 @@ type inFile struct {
 }
 
 type progCase struct {
-	P     *refsem.Program
-	Style refsem.Style
-	Files []inFile
-	Sels  []refsem.Expr
-	Src   string // overrides the rendering of P when set (layout variants)
-	Root  bool   // also compare the JSON output
+	P        *refsem.Program
+	Style    refsem.Style
+	Files    []inFile
+	Sels     []refsem.Expr
+	Src      string // overrides the rendering of P when set (layout variants)
+	Root     bool   // also compare the JSON output
+	MaxSteps int64  // model step budget (0: default)
 }
 
 func (pc *progCase) source() string {
@@ -100,7 +101,7 @@ func (pc *progCase) model() refsem.Result {
 	for _, e := range pc.Sels {
 		sels = append(sels, refsem.Selector{X: e})
 	}
-	return refsem.RunProgram(pc.P, mf, sels, probeKeyOrder, 0)
+	return refsem.RunProgram(pc.P, mf, sels, probeKeyOrder, pc.MaxSteps)
 }
 
 func modelKind(k string) drive.ErrKind {
